@@ -39,11 +39,10 @@ LEAN_TARGETS = ["NfcVerif.Props.C09", "drv_c09"]
 THEOREMS = [
     "NfcVerif.C09.terminate_notifies_every_waiter",
     "NfcVerif.C09.blocked_calls_return",
-    "NfcVerif.C09.later_calls_return",
     "NfcVerif.C09.no_lost_wakeup",
-    "NfcVerif.C09.wait_points_closed",
+    "NfcVerif.C09.later_calls_return",
     "NfcVerif.C09.terminated_stable",
-    "NfcVerif.C09.run_bounded_after_terminate",
+    "NfcVerif.C09.wait_points_closed",
     "NfcVerif.C09.terminate_reached",
     "NfcVerif.C09.connect_returns_partial",
     "NfcVerif.C09.connect_returns_counterexample",
@@ -592,8 +591,166 @@ def tie_waits(ck, model):
     return len(cases)
 
 
+
+# =========================================================================== L2: run loops and service loops
+LOOP_CAUSES = ("remote-disc", "timeout", "broken-link", "none", "malformed", "local-terminate", "keyboard-interrupt", "ioerror",
+               "ioerror-persistent", "key-agreement", "decryption", "encryption", "runtime-error")
+
+
+def handler_table():
+    """(T) the except clauses of run_as_initiator / run_as_target read from the source: class -> (terminate?, raises)"""
+    src = open(os.path.join(REPO, "src", "nfc", "llcp", "llc.py")).read()
+    out = {}
+    for fn in ast.walk(ast.parse(src)):
+        if isinstance(fn, ast.FunctionDef) and fn.name in ("run_as_initiator", "run_as_target"):
+            tbl = {}
+            for node in ast.walk(fn):
+                if isinstance(node, ast.Try) and node.handlers:
+                    for h in node.handlers:
+                        name = ast.unparse(h.type) if h.type is not None else "*"
+                        calls = any(isinstance(n, ast.Call) and ast.unparse(n.func) == "self.terminate" for b in h.body for n in ast.walk(b))
+                        rs = [ast.unparse(n.exc) if n.exc is not None else "reraise" for b in h.body for n in ast.walk(b) if isinstance(n, ast.Raise)]
+                        tbl[name] = (calls, rs[0] if rs else None)
+                    tbl["finally"] = any(isinstance(n, ast.Call) and ast.unparse(n.func) == "self.terminate"
+                                         for b in node.finalbody for n in ast.walk(b))
+            out[fn.name] = tbl
+    return out
+
+
+def tie_loops(ck, model):
+    """every cause x role on the real run loops (single thread, scripted MAC) against the model's table"""
+    import nfc.llcp.llc
+    from sims import term_llc as T
+    n = dis = 0
+    tables = handler_table()
+    cls_of = {"keyboard-interrupt": "KeyboardInterrupt", "ioerror": "IOError", "key-agreement": "sec.KeyAgreementError",
+              "decryption": "sec.DecryptionError", "encryption": "sec.EncryptionError"}
+    try:
+        for role in ("initiator", "target"):
+            tbl = tables["run_as_" + role]
+            for cause in LOOP_CAUSES:
+                for at in (0, 2):
+                    script = T.MacScript(cause, at)
+                    T.install_mac(script)
+                    llc = nfc.llcp.llc.LogicalLinkController(sec=False)
+                    llc.cfg.update({"send-miu": 248, "recv-lto": 500, "send-wks": 0, "llcp-dpc": 0})
+                    llc.mac = (nfc.dep.Initiator if role == "initiator" else nfc.dep.Target)()
+                    llc.link.ESTABLISHED = True
+                    nfc.llcp.llc.time = T._FastTime
+                    called = []
+                    orig = llc.terminate
+                    llc.terminate = lambda reason, orig=orig: (called.append(reason), orig(reason))[1]
+                    try:
+                        getattr(llc, "run_as_" + role)(terminate=script.terminate_cb)
+                        leave = "returns"
+                    except KeyboardInterrupt:
+                        leave = "KeyboardInterrupt"
+                    except SystemExit:
+                        leave = "SystemExit"
+                    except IOError:
+                        leave = "IOError"
+                    except Exception:  # noqa
+                        leave = "reraises"
+                    shut = all(x is None for x in llc.sap)
+                    real = "terminate=%d leave=%s shutdown=%d" % (bool(called), leave, shut)
+                    rep = model.ask("loop role=%s cause=%s" % (role, cause))
+                    rep3 = " ".join(t for t in rep.split() if not t.startswith("connect="))
+                    n += 1
+                    ck.case(("loop", role, cause, at), True, "L2 loop:" + cause)
+                    if rep3 != real:
+                        dis += 1
+                        ck.fail("tie:run-loop-table", "model %r, implementation %r" % (rep3, real), {"role": role, "cause": cause, "at": at})
+                    if not shut:
+                        ck.fail("terminate-incomplete-" + cause, "run_as_%s left by %s after cause %s with service access points still open"
+                                % (role, leave, cause), {"role": role, "cause": cause, "at": at, "single_thread": True})
+                    # (T) the handler that the cause reaches, as written in the source
+                    if cause in cls_of:
+                        h = tbl.get(cls_of[cause])
+                        want = {"KeyboardInterrupt": (True, "KeyboardInterrupt"), "SystemExit": (True, "SystemExit")}.get(leave)
+                        if h is None or want is None or h != want:
+                            dis += 1
+                            ck.fail("tie:run-loop-handlers", "except %s in run_as_%s is %r, model says leave=%s" % (cls_of[cause], role, h, leave),
+                                    {"role": role, "cause": cause})
+            if not tbl.get("finally"):
+                ck.fail("tie:run-loop-handlers", "run_as_%s has no terminate() in its finally clause" % role, {"role": role})
+    finally:
+        T.uninstall()
+    ck.tie("run loop: cause -> terminate()/leave, model vs real loops and except clauses", cases=n, disagreements=dis, exhaustive=True)
+
+
+def tie_service(ck, model):
+    """the SNEP / handover loops on sockets of a terminated link, single thread under the Condition double"""
+    import nfc.llcp
+    import nfc.snep
+    import nfc.handover
+    from sims import term_llc as T
+    world = T.World()
+    T.install_double(world)
+    n = dis = 0
+    try:
+        for srvname in ("snep", "handover"):
+            for point in ("accept", "poll"):
+                llc = T.make_llc()
+                srv = nfc.snep.SnepServer(llc) if srvname == "snep" else nfc.handover.HandoverServer(llc)
+                lsock = srv._args[-1]
+                client = nfc.llcp.Socket(llc, nfc.llcp.DATA_LINK_CONNECTION)
+                client.bind(33)
+                T.establish(client._tco)
+                llc.terminate("test")
+                world.begin(llc, lsock._tco, [])
+                try:
+                    if point == "accept":
+                        (srv._listen(lsock) if srvname == "snep" else srv.listen(llc, lsock))
+                    else:
+                        (srv._serve(client) if srvname == "snep" else srv.serve(client))
+                    real = "exited"
+                except T.Hang as h:
+                    real = "hang " + str(h.cv)
+                    ck.fail("service-loop-waits-" + srvname, "%s %s loop waits on %s after the link terminated" % (srvname, point, h.cv),
+                            {"server": srvname, "loop": point})
+                except BaseException as e:  # noqa
+                    real = "exited"      # the thread ends (with a traceback)
+                    ck.count("service loop left by " + exc_name(e))
+                finally:
+                    world.end()
+                rep = model.ask("service k=dlc st=%s b=1 reg=1 alive=1 sd=1 rw=1 sb=1 rb=1 sm=128 at=%s"
+                                % ("LISTEN" if point == "accept" else "ESTABLISHED", point))
+                n += 1
+                ck.case(("service", srvname, point), True, "L2 service")
+                if rep != real:
+                    dis += 1
+                    ck.fail("tie:service-loops", "model %r, implementation %r" % (rep, real), {"server": srvname, "loop": point})
+    finally:
+        T.uninstall()
+    ck.tie("service loops on a terminated link: model vs snep/handover server code", cases=n, disagreements=dis, exhaustive=True)
+
+
 def run(ck):
-    ck.rule = "TODO"
+    ck.rule = ("L2 cases: (abstract socket/controller state, call, script of actions at the scheduling points); the action tree of every "
+               "(state, call) is enumerated to depth %d; systematic over kind x state x bound/unbound x link-terminated-before x call "
+               "(with the queue / window / counter values a call reads) plus seeded random states; non-trivial = the call waits at least "
+               "once or the link terminates during/before it. L3 cases: (role, cause, exchange at which the link ends, when the threads "
+               "were started); non-trivial = at least one thread was blocked inside Condition.wait at that moment"
+               % (4 if ck.thorough else 3))
+    ck.assumptions += [
+        "Python runtime: notify_all wakes every waiter, a woken thread eventually gets the lock; the link thread preempts an "
+        "application thread only at lock acquisitions where that thread holds no lock (races between two plain statements, e.g. "
+        "llc.close() reading socket.addr twice, are outside the explored schedules)",
+        "sockets are used through nfc.llcp.Socket; states that the API cannot produce (a listening or established connection "
+        "without address, a DISC in the queue of an ESTABLISHED connection, non-UI PDUs in a datagram socket) are compared with the "
+        "model where it covers them but are not judged",
+        "between two scheduling points of a thread the world changes only by the modelled actions (terminate, PDU queued, "
+        "acknowledgement, dequeue, name resolved, notification without change)",
+        "the NFC-DEP layer is a scripted MAC (subclasses of nfc.dep.Initiator/Target); connect() is the real ContactlessFrontend.connect",
+    ]
+    ck.trusted += ["hand-written Lean model NfcVerif.Model.Term, tied by differential runs (sims/term_llc.py Condition double)",
+                   "harness/props/c09.py, harness/sims/term_llc.py"]
+    ck.lean("NfcVerif.Props.C09", THEOREMS)
+    if ck.thorough:
+        ck.leanchecker(["NfcVerif.Props.C09"])
     model = Model("drv_c09")
     tie_waits(ck, model)
+    tie_loops(ck, model)
+    tie_service(ck, model)
     n = oracle(ck)
+    ck.notes.append("L3: %d real-thread scenarios, hard time limit %.0f s per thread" % (n, HANG_TIMEOUT))
